@@ -37,6 +37,9 @@ type ggOpts struct {
 	perSample bool // only operators that act per sample along the tracked batch axis; no dependence on N
 	// aliasRoutes biases generation towards the in-place mutation sites named by C02's anchors
 	aliasRoutes bool
+	// weightOps biases generation towards every operator family that reads weights or
+	// attribute-backed tensors (C17's quantifier)
+	weightOps bool
 	allOutputs  bool // declare every intermediate value as graph output
 	// continuousOnly leaves out operators whose result is a discontinuous function of float inputs
 	// (comparisons, ArgMax, Cast to integers), so that metamorphic relations with a rounding
@@ -859,6 +862,12 @@ func genGraph(rt *rapid.T, opts ggOpts) *ggraph {
 	n := rapid.IntRange(1, opts.maxNodes).Draw(rt, "nNodes")
 	for len(gg.nodes) < n {
 		k := rapid.SampledFrom(gTemplateWeights).Draw(rt, "template")
+		if opts.weightOps && rapid.IntRange(0, 2).Draw(rt, "preferWeights") != 0 {
+			w := []gtemplate{tBinaryInit, tGemm, tGemmTransA, tGemmTransA, tMatMul, tGather, tConv, tRecurrent, tPRelu, tScalerLinReg, tShapeCastConst}
+			if w[rapid.IntRange(0, len(w)-1).Draw(rt, "weightTemplate")](gg, rt) {
+				continue
+			}
+		}
 		if opts.aliasRoutes && rapid.IntRange(0, 2).Draw(rt, "preferAlias") == 0 {
 			k = rapid.SampledFrom([]int{10, 12, 15, 16, 17}).Draw(rt, "aliasTemplate") // Concat, Reduce/ArgMax, Conv, recurrent, Expand
 		}
